@@ -105,7 +105,9 @@ package rangeproof
 //@   ensures msize: result ==> bitlen(val(p.MResponse)) <= g.Params.Lm + g.Params.Lh + g.Params.Lstatzk + 1
 //@   ensures v5size: result ==> bitlen(val(p.V5Response)) <= g.Params.Lm + s.ld + 2 + g.Params.Lh + g.Params.Lstatzk + 1
 //@   ensures sizes: result ==> forall i in 0..len(s.cRep) :: bitlen(val(p.Cs[i])) <= bitlen(val(g.N)) && bitlen(val(p.DResponses[i])) <= s.ld + g.Params.Lh + g.Params.Lstatzk + 1 && bitlen(val(p.VResponses[i])) <= g.Params.Lm + g.Params.Lh + g.Params.Lstatzk + 1
+//@   ensures units: result ==> forall i in 0..len(s.cRep) :: 0 < val(p.Cs[i]) && val(p.Cs[i]) < val(g.N)
 //@   modifies nothing
+//@   loop 0 invariant forall j in 0..$i :: 0 < val(p.Cs[j]) && val(p.Cs[j]) < val(g.N)
 //@   loop 0 invariant 0 <= $i && $i <= len(s.cRep) && forall j in 0..$i :: p.Cs[j] != nil && p.DResponses[j] != nil && p.VResponses[j] != nil && bitlen(val(p.Cs[j])) <= bitlen(val(g.N)) && bitlen(val(p.DResponses[j])) <= s.ld + g.Params.Lh + g.Params.Lstatzk + 1 && bitlen(val(p.VResponses[j])) <= g.Params.Lm + g.Params.Lh + g.Params.Lstatzk + 1
 //@   mustfail canary: !result
 
@@ -113,5 +115,6 @@ package rangeproof
 //@   property C12 C08
 //@   trusted string-keyed dynamic lookups through zkproof.BaseMerge / ProofMerge are not yet within the verified subset; the precondition lists what the callee chain dereferences
 //@   requires s != nil && p != nil && g != nil && g.N != nil && val(g.N) > 1 && challenge != nil && rpstruct(s, p) && 0 <= s.index && s.index < len(g.R)
+//@   requires units: forall i in 0..len(s.cRep) :: 0 < val(p.Cs[i]) && val(p.Cs[i]) < val(g.N)
 //@   ensures shape: len(result) == 1 + len(s.cRep) && fresh(result) && forall i in 0..len(result) :: result[i] != nil && fresh(result[i])
 //@   modifies nothing
